@@ -183,7 +183,7 @@ theorem kindSpecific_enumDirs {st : LState} {d : Definition} (h : validateKindSp
     intro v hv
     have := h v hv
     simp only [andThen_eq_pass] at this
-    exact this.2
+    exact this.2.2
 
 theorem validateTypeDefinitions_pass {st : LState} (h : validateTypeDefinitions st = .pass) :
     ∀ k d, st.types.lookup k = some d → DefOK st d := by
